@@ -235,6 +235,78 @@ theorem interval_table :
       (intervalSemitones q n = (qualityOffset (isPerfect n) q).map (genericBase n + ·)) := by
   decide +kernel
 
+/-- `change_quality` on every interval class and every step that stays on the ladder: the result is again one of
+    the 39 classes (same number) and its size is the old size plus the step — the size an interval object reports
+    after its quality was changed is that of its NEW quality.  (Finite: 7 qualities × 7 numbers × steps −6..6.) -/
+def cqOk (q : String) (n : Nat) (k : Int) : Bool :=
+  match changeQuality n q k with
+  | some q' => intervalValid q' n "up" && (intervalSemitones q' n == (intervalSemitones q n).map (· + k))
+  | none => true
+
+theorem change_quality_table :
+    ∀ q ∈ ["dd", "d", "m", "M", "P", "A", "AA"], ∀ n ∈ [1, 2, 3, 4, 5, 6, 7],
+      ∀ k ∈ ([-6, -5, -4, -3, -2, -1, 0, 1, 2, 3, 4, 5, 6] : List Int),
+      intervalValid q n "up" = true → cqOk q n k = true := by
+  decide +kernel
+
+theorem indexOf_lt {α : Type} [DecidableEq α] (x : α) : ∀ (l : List α) (i : Nat), indexOf x l = some i → i < l.length := by
+  intro l
+  induction l with
+  | nil => intro i h; simp [indexOf] at h
+  | cons a t ih =>
+    intro i h
+    unfold indexOf at h
+    split at h
+    · cases h; simp
+    · cases hi : indexOf x t with
+      | none => simp [hi] at h
+      | some j =>
+        simp [hi] at h
+        have := ih j hi
+        subst h
+        simp; omega
+
+theorem change_quality_on_far (l : List String) (q : String) (k : Int) (hl : l.length ≤ 6) (hk : k < -5 ∨ 5 < k) :
+    changeQualityOn l q k = none := by
+  unfold changeQualityOn
+  cases h : indexOf q l with
+  | none => rfl
+  | some i =>
+    have := indexOf_lt q l i h
+    have hcond : (decide ((i : Int) + k < 0) || decide ((i : Int) + k ≥ (l.length : Int))) = true := by
+      simp; omega
+    simp only [hcond, if_true]
+
+/-- steps of more than five semitones leave every ladder: the code raises -/
+theorem change_quality_far (n : Nat) (q : String) (k : Int) (hk : k < -5 ∨ 5 < k) :
+    changeQuality n q k = none := by
+  unfold changeQuality
+  have h0 : k ≠ 0 := by omega
+  simp only [h0, if_false]
+  apply change_quality_on_far _ _ _ _ hk
+  unfold qualityLadder
+  split <;> simp
+
+/-- for EVERY step: whenever `change_quality` succeeds on a valid interval class, the new class is valid and its
+    size is the old size plus the step -/
+theorem change_quality_size (q : String) (n : Nat) (k : Int) (q' : String)
+    (hq : q ∈ ["dd", "d", "m", "M", "P", "A", "AA"]) (hn : n ∈ [1, 2, 3, 4, 5, 6, 7])
+    (hv : intervalValid q n "up" = true) (h : changeQuality n q k = some q') :
+    intervalValid q' n "up" = true ∧ intervalSemitones q' n = (intervalSemitones q n).map (· + k) := by
+  by_cases hk : k < -5 ∨ 5 < k
+  · rw [change_quality_far n q k hk] at h; cases h
+  · have hk' : k ∈ ([-6, -5, -4, -3, -2, -1, 0, 1, 2, 3, 4, 5, 6] : List Int) := by
+      have : -5 ≤ k ∧ k ≤ 5 := by omega
+      obtain ⟨h1, h2⟩ := this
+      interval_cases k <;> simp
+    have := change_quality_table q hq n hn k hk' hv
+    unfold cqOk at this
+    rw [h] at this
+    simpa using this
+
+example : changeQuality 3 "M" (-1) = some "m" ∧ changeQuality 4 "A" (-2) = some "d" ∧
+    changeQuality 3 "M" 1 = some "A" ∧ changeQuality 5 "P" 3 = none := by decide
+
 /-- dotted units: the multiplier of d dots is 2 - 1/2^d -/
 theorem dot_multipliers : DOT_MULTIPLIERS = [0, 1, 2, 3].map (fun d : Nat => (2 : Rat) - 1 / 2 ^ d) := by
   decide +kernel
